@@ -232,14 +232,16 @@ class Rig:
         task = asyncio.create_task(step.run())
         raised = False
         fed: dict = {}
+        self.last_scatter_applied = 0
         try:
             await sd.settle(step, task, ["x"])
             for e in events:
+                if task.done():
+                    break           # run() raised (or terminated): nothing after this point is applied — nor given to the model
+                self.last_scatter_applied += 1
                 if e[0] == "r":
                     await step.restore({p_out.name: [Token(value=None, tag=t) for t in e[1]]})
                     continue
-                if task.done():
-                    break
                 tok = (ListToken(tag=e[1], value=[Token(value=i, tag=e[1]) for i in range(e[2])]) if e[0] == "l"
                        else Token(value="plain", tag=e[1]) if e[0] == "o" else TerminationToken(Status[e[1]]))
                 await sd.save_tokens(self.context, p_in, [tok])
@@ -567,6 +569,7 @@ class C01(Property):
         elif op == "scatterrun":
             evs = case["events"]
             elems, sizes, raised = await rig.scatter_run(evs)
+            evs = evs[: rig.last_scatter_applied]
             words = [f"l:{e[1]}:{e[2]}" if e[0] == "l" else f"o:{e[1]}" if e[0] == "o" else f"t:{e[1]}" if e[0] == "t"
                      else "r:" + (",".join(e[1]) or "-") for e in evs]
             terms = [t for t in elems if isinstance(t, TerminationToken)]
